@@ -49,11 +49,13 @@ Wait for a channel potentially running on a `tokio` thread to process all items 
 If the current thread is a `tokio` thread then this call will be executed using [`tokio::task::block_in_place`] to avoid starving other work.
 */
 pub fn blocking_flush<T: Channel>(sender: &Sender<T>, timeout: Duration) -> bool {
-    match tokio::runtime::Handle::try_current() {
-        // If we're on a `tokio` thread then await
-        Ok(handle) => handle.block_on(flush(sender, timeout)),
-        // If we're not on a `tokio` thread then run a regular blocking variant
-        Err(_) => sync::blocking_flush(sender, timeout),
+    if can_block_in_place() {
+        // If we're on a multi-threaded `tokio` thread then tell the runtime we're about to block
+        tokio::task::block_in_place(|| sync::blocking_flush(sender, timeout))
+    } else {
+        // If we're not on a `tokio` thread, or its runtime doesn't support
+        // blocking in place, then run a regular blocking variant
+        sync::blocking_flush(sender, timeout)
     }
 }
 
@@ -80,11 +82,28 @@ pub fn blocking_send<T: Channel>(
     msg: T::Item,
     timeout: Duration,
 ) -> Result<(), BatchError<T::Item>> {
+    if can_block_in_place() {
+        // If we're on a multi-threaded `tokio` thread then tell the runtime we're about to block
+        tokio::task::block_in_place(|| sync::blocking_send(sender, msg, timeout))
+    } else {
+        // If we're not on a `tokio` thread, or its runtime doesn't support
+        // blocking in place, then run a regular blocking variant
+        sync::blocking_send(sender, msg, timeout)
+    }
+}
+
+/**
+Whether the current thread belongs to a `tokio` runtime that supports [`tokio::task::block_in_place`].
+
+Calling `Handle::block_on` from within a runtime panics, so blocking calls made on `tokio` threads need to go through `block_in_place` instead, which is only available on multi-threaded runtimes.
+*/
+fn can_block_in_place() -> bool {
     match tokio::runtime::Handle::try_current() {
-        // If we're on a `tokio` thread then await
-        Ok(handle) => handle.block_on(send(sender, msg, timeout)),
-        // If we're not on a `tokio` thread then run a regular blocking variant
-        Err(_) => sync::blocking_send(sender, msg, timeout),
+        Ok(handle) => !matches!(
+            handle.runtime_flavor(),
+            tokio::runtime::RuntimeFlavor::CurrentThread
+        ),
+        Err(_) => false,
     }
 }
 
